@@ -752,3 +752,42 @@ def rule_handle_numrecs_guarded(ctx):
                              "length of the longest record variable in the file")
     ctx.floor("UNLIMSIZE2", 3, n, "(reads of handle->numrecs in mfsd.c)")
     return n
+
+
+def rule_piecewise_loop_clamped(ctx):
+    """PIECECLAMP (C03, C04): the gap before (and after) a first write is filled in pieces: `write piece bytes; remaining -= piece;`
+    until nothing remains.  The last piece is shorter, so each such loop re-clamps the piece to what remains
+    (`piece = MIN(piece, remaining)`); without it the last pass writes a full piece, the element's position runs past the place
+    where the caller's data belongs and the data lands in the wrong rows."""
+    from .codec import ast_walk, ast_exprs
+    prog = ctx.prog
+    f = prog.func("hdf_xdr_NCvdata")
+    if f is None:
+        ctx.unrecognised("PIECECLAMP", "PIECECLAMP:hdf_xdr_NCvdata", "-", "hdf_xdr_NCvdata not found")
+        return 0
+    loops = []
+
+    def vis(nn, st):
+        if nn[0] in ("while", "do", "for"):
+            loops.append(nn)
+        return True
+    ast_walk(f.raw.get("ast"), vis)
+    n = 0
+    for lp in loops:
+        body = lp[4] if lp[0] == "for" else (lp[2] if lp[0] == "while" else lp[1])
+        exprs = [x for e in ast_exprs(body) for x in walk(e, True)]
+        decs = [(strip(x[2])[1], strip(x[3])[1]) for x in exprs if x[0] == "asg" and x[1] == "-=" and kind(strip(x[2])) == "var" and kind(strip(x[3])) == "var"]
+        for rem, piece in decs:
+            writes = [x for x in exprs if x[0] == "call" and x[1] == "Hwrite" and len(x[3]) >= 2 and kind(strip(x[3][1])) == "var" and strip(x[3][1])[1] == piece]
+            if not writes:
+                continue
+            n += 1
+            key = "PIECECLAMP:hdf_xdr_NCvdata#%d" % n
+            clamp = [x for x in exprs if x[0] == "asg" and x[1] == "=" and kind(strip(x[2])) == "var" and strip(x[2])[1] == piece and any(y[0] == "var" and y[1] == rem for y in walk(x[3], True))]
+            if clamp:
+                ctx.holds("PIECECLAMP", key, f.where(writes[0][5]), "`%s` is re-clamped to `%s` in the loop" % (piece, rem), nontrivial=True)
+            else:
+                ctx.violated("PIECECLAMP", key, f.where(writes[0][5]), "the loop writes `%s` bytes per pass and counts `%s` down, but never re-clamps `%s` to what remains: the last pass writes a full "
+                             "piece beyond the gap" % (piece, rem, piece))
+    ctx.floor("PIECECLAMP", 2, n, "(piecewise fill loops)")
+    return n
